@@ -135,6 +135,9 @@ def examine(t, s, v, tier, rng, want):
         out.append(("C12", f"returned-non-schema|{tcls}", safe_repr(r)))
         return out, res
     plain = is_plain(v)
+    # "carries the substituted data": floats within one coarsest grid step where the schema
+    # declares a precision somewhere, otherwise only within math.isclose's relative band
+    ctol = (0.1 + 1e-9) if "precision" in repr(t) else 0.0
     conf = clean(s, v)
     thirds = third_values(t, v, tier)
     gens, _ = generated(rng, r, GEN_D[tier])
@@ -159,7 +162,7 @@ def examine(t, s, v, tier, rng, want):
                     cs = clean(s, w)
                     if cs is not True:
                         out.append(("C05", f"widened|{tcls}|{tname(v)}", f"w={src(w)} original:{cs}"))
-                if "C04" in want and not carries(v, w):
+                if "C04" in want and not carries(v, w, ctol):
                     out.append(("C04", f"accepts-value-not-carrying-v|{tcls}|{tname(v)}", f"w={src(w)}"))
         elif cr is not False and "C12" in want:
             out.append(("C12", f"result-validate-{cr}|{tcls}|{tname(v)}", f"w={src(w)}"))
@@ -174,7 +177,7 @@ def examine(t, s, v, tier, rng, want):
         cg = clean(r, g)
         # C04: whatever the result generates carries v (whether or not it also validates: a
         # generated value that the result itself rejects is C01's business)
-        if plain and "C04" in want and not carries(v, g):
+        if plain and "C04" in want and not carries(v, g, ctol):
             out.append(("C04", f"generates-value-not-carrying-v|{tcls}|{tname(v)}", f"g={src(g)}"))
         if "C12" in want and cg is not True:
             # usable: whatever the result generates, the result itself accepts
